@@ -7,7 +7,8 @@ Transliterated.  `dhcp_dict` is a Python `dict` (insertion ordered): an associat
 assignment to an existing key keeps its position, `del` removes the entry and a new key is appended.
 The transmission itself (`_write`) belongs to the node layer: every call of `_write` is recorded as
 data (`Write`: its two arguments and the contents of `frame_buf` at the call) and its Boolean result
-is an input (`w1`, `w2`: results of the first / second `_write` of the call).
+is an input (`w1`: result of the first `_write` of the call; the result of a second one is never
+looked at by the code).
 -/
 import NrfModel.Basic
 import NrfModel.Net.Addr
@@ -342,4 +343,3 @@ def step (w : World) : Ev → World × Obs
 def run (w : World) (h : List Ev) : World := h.foldl (fun w e => (step w e).1) w
 
 end Nrf.Mesh
-
